@@ -61,6 +61,10 @@ class Trap(Exception):
     pass
 
 
+class Diverged(Exception):
+    """implementation and reference disagree on the memory size: stop this configuration (already reported)"""
+
+
 class Ref:
     def __init__(self, minp, maxp, with_data):
         self.mem = bytearray(minp * PAGE)
@@ -200,7 +204,9 @@ def run_config(ctx, cfg, nrandom, report):
         if name == 'size':
             return check(name, args, ref.size())
         if name == 'grow':
-            return check(name, args, ref.grow(args[0]))
+            if not check(name, args, ref.grow(args[0])):
+                raise Diverged(n[0])          # sizes differ from here on: everything after would be noise
+            return True
         if name.startswith('get_'):
             return check(name, args, ref.glob[name[4:]])
         if name.startswith('set_'):
@@ -317,6 +323,8 @@ def memory_stage(ctx, quick=True):
             n, inst, ref = run_config(ctx, cfg, 150 if quick else 1500, report)
             total += n
             last = (inst, ref, cfg)
+        except Diverged as d:
+            total += d.args[0]
         except Exception as ex:   # noqa: BLE001
             ctx.violation({'fn': 'memory/globals: instantiate', 'args': list(cfg[:2]), 'kind': 'memory-search',
                            'what': 'module with memory %r failed: %r' % (cfg, ex)})
